@@ -643,7 +643,7 @@ def gen_block_programs(tier):
             if not any(bodies):
                 continue
             for mode, conds in cond_modes.items():
-                for predef in predefs:
+                for predef in (predefs if not (thorough and len(shape) == 3) else [(), ('VA', 'VB')]):
                     if mode == 'symbol':
                         # conditions must read defined symbols
                         need = {'VA'} | ({'VB'} if shape.count('elif') == 2 else set())
@@ -1064,7 +1064,7 @@ def bounded_abbreviated_code(tier='quick'):
             f'$PRED programs: all IF blocks with <=3 branches (IF/ELSE IF/ELSE) x <=2 assignments per '
             f'branch{"" if tier == "thorough" else " (<=1 when 3 branches)"} over 2 target symbols, right '
             f'hand sides constant / other symbol+constant{" / self*2+constant (<=2 branches)" if tier == "thorough" else ""}'
-            f', conditions on data or on symbols assigned in the block, 4 pre-definition patterns '
+            f', conditions on data or on symbols assigned in the block, 4 pre-definition patterns{" (2 when 3 branches)" if tier == "thorough" else ""} '
             f'[{counts["block"]}]; one-level nested IFs [{counts["nested"]}]; 1-2 logical IFs '
             f'[{counts["logif"]}]; all arithmetic trees of depth <=2 over + - * / ** unary- with operands '
             f'WGT, AGE, 2 printed with minimal parentheses'
